@@ -526,7 +526,10 @@ def print_nodes(nodes, depth, out):
         elif k == "raw":
             # fault injection: lines printed as they are behind the block's indentation
             for l in n[1]:
-                out.append(ind + l)
+                if l.startswith("\x01"):
+                    out.append(" " + ind[1:] + l[1:])    # the first tab of the indentation replaced by a space
+                else:
+                    out.append(ind + l)
         else:
             raise ValueError(k)
 
